@@ -212,8 +212,10 @@ Q8 = [(0, 0, 0, 1), (1, 0, 0, 0), (0, 1, 0, 0), (0, 0, 1, 0), (0, 0, 0, -1), (-1
 
 def lie_items(rng, ltype, n):
     items = []
-    for _ in range(n):
+    for idx in range(n):
         q = list(rng.choice(Q8))
+        if n >= 2 and idx < 2:
+            q = list([(1, 0, 0, 0), (0, 1, 0, 0)][idx])  # i and j do not commute: the order is observable
         t = [rng.randint(-3, 3) for _ in range(3)]
         s = [rng.choice([0.5, 1.0, 2.0])]
         if ltype == 'SO3':
@@ -234,21 +236,38 @@ def lie_cases(ctx, pp, torch):
         return [], ''
     rng = ctx.rng
     meta, cs = [], []
-    n = ctx.scale(40, 400)
+    directed = list(itertools.product(['SO3', 'SE3', 'RxSO3', 'Sim3'], ['function', 'method', 'method-positional'],
+                                      ['cumprod', 'cummul', 'cumprod_', 'cummul_'], [True, False]))
+    n = len(directed) + ctx.scale(24, 600)
     for k in range(n):
-        lt = ['SO3', 'SE3', 'RxSO3', 'Sim3'][k % 4]
-        L = rng.choice([1, 2, 3, 4, 5, 6, 7, 9, 10, 13]) if k >= 8 else [1, 2, 3, 5, 6, 7, 11, 12][k]
-        left = rng.random() < 0.5
-        fn = rng.choice(['cumprod', 'cummul', 'cumprod_', 'cummul_'])
+        if k < len(directed):
+            lt, form, fn, left = directed[k]
+            L = [2, 3, 5, 6, 7, 11][k % 6]
+        else:
+            lt = rng.choice(['SO3', 'SE3', 'RxSO3', 'Sim3'])
+            form = rng.choice(['function', 'method', 'method-positional'])
+            fn = rng.choice(['cumprod', 'cummul', 'cumprod_', 'cummul_'])
+            left = rng.random() < 0.5
+            L = rng.choice([1, 2, 3, 4, 5, 6, 7, 9, 10, 13])
         items = lie_items(rng, lt, L)
         x = pp.LieTensor(torch.tensor(items, dtype=torch.float64), ltype=getattr(pp, lt + '_type'))
+        x0 = x.tensor().clone()
         try:
-            y = getattr(pp, fn)(x, 0, left=left)
+            if form == 'function':
+                y = getattr(pp, fn)(x, 0, left=left)
+            elif form == 'method':
+                y = getattr(x, fn)(dim=0, left=left)
+            else:
+                y = getattr(x, fn)(0, left)
             out = [[Fraction(v) for v in row] for row in y.tensor().tolist()]
+            if fn.endswith('_') and not torch.equal(x.tensor(), y.tensor()):
+                ctx.violation('cum-inplace-not-overwritten', '%s (%s form) did not overwrite its input with the result' % (fn, form), dict(kind='lie', ltype=lt, L=L, left=left, fn=fn, form=form, items=items))
+            if not fn.endswith('_') and not torch.equal(x.tensor(), x0):
+                ctx.violation('cum-mutates-input', '%s (%s form) changed its input' % (fn, form), dict(kind='lie', ltype=lt, L=L, left=left, fn=fn, form=form, items=items))
         except Exception:
             out = None
         ctx.case(('lie', lt, L, left, fn, tuple(map(tuple, items))), nontrivial=L >= 2, branch='lie-' + lt)
-        meta.append(dict(kind='lie', ltype=lt, L=L, left=left, fn=fn, items=items))
+        meta.append(dict(kind='lie', ltype=lt, L=L, left=left, fn=fn, form=form, items=items))
         gid = {'SO3': 0, 'SE3': 1, 'RxSO3': 2, 'Sim3': 3}[lt]
         lit_in = coq_list(qlist(r) for r in items)
         lit_out = 'None' if out is None else 'Some ' + coq_list(qlist(r) for r in out)
@@ -285,7 +304,14 @@ def replay(ctx, c):
         lt, left = c['ltype'], c['left']
         x = pp.LieTensor(torch.tensor(c['items'], dtype=torch.float64), ltype=getattr(pp, lt + '_type'))
         try:
-            y = getattr(pp, c['fn'])(x.clone(), 0, left=left)
+            form = c.get('form', 'function')
+            xc = x.clone()
+            if form == 'function':
+                y = getattr(pp, c['fn'])(xc, 0, left=left)
+            elif form == 'method':
+                y = getattr(xc, c['fn'])(dim=0, left=left)
+            else:
+                y = getattr(xc, c['fn'])(0, left)
         except Exception as e:
             return 'raises %s: %s' % (type(e).__name__, str(e)[:200])
         acc, exp = None, []
